@@ -142,6 +142,14 @@ def extra_mismatches(ctx, pid):
     if pid == 'C18':
         for m in ex['regimes']['mismatches']:
             out.append((dict(m, kind='crate-regime'), True))
+    if pid in ('C09', 'C10', 'C16'):
+        for name in ex.get('release_verdicts', {}).get('accepted_in_release', []):
+            d = ctx.by_name[name]
+            if (d['kind'] == 'enum') == (pid == 'C10') or pid == 'C16':
+                out.append(({'decl': name, 'kind': 'release-verdict',
+                             'what': 'rejected when the proc-macro is built with overflow checks (dev) but accepted when it is built '
+                                     'without them (cargo build --release): the verdict depends on the build profile',
+                             'rustc_dev': ctx.verdicts['rejected'].get(name, [])[:2]}, True))
     for m in ctx.beh['facts']['mismatches']:
         w = m.get('what', '')
         if (w.startswith('size/alignment') and pid == 'C06') or (w.startswith('debug text') and pid == 'C19') or \
@@ -159,7 +167,13 @@ def verdict_obligations(ctx, kind):
         if d['kind'] != kind or d['name'] in casc:
             continue
         real = d['name'] in acc
-        if d['name'] in ctx.dec:
+        if d['name'] in ctx.dec and d.get('unstructured'):
+            # malformed attribute string: the rule says reject (by construction of the corpus); the model of the
+            # argument parser (Tokens.v) ran on its tokens
+            valid = d['expect'] == 'accept'
+            model = ctx.dec[d['name']][1]
+            how = 'malformed attribute: expectation=%s token-automaton model=%s' % (d['expect'], model)
+        elif d['name'] in ctx.dec:
             valid, model = ctx.dec[d['name']][:2]
             how = 'valid=%s model=%s' % (valid, model)
         else:
@@ -310,6 +324,11 @@ def check_property_(pid, tier, seed):
     if hits:
         violations.append((write_replay(pid, {'property': pid, 'kind': 'forbidden-vernacular', 'hits': hits}),
                            ' no-failing-input-found'))
+    chk = None
+    if tier == 'thorough':
+        chk = T.coqchk()
+        if not chk['ok']:
+            violations.append((write_replay(pid, {'property': pid, 'kind': 'coqchk', 'result': chk}), ' no-failing-input-found'))
     # 2. per-program obligations on the real expansions
     obs = collect(ctx, pid)
     failing = [o for o in obs if not o['ok']]
@@ -436,9 +455,11 @@ def check_property_(pid, tier, seed):
             'must_not_compile_probes': {k: ctx.extra['cfail'].get(k) for k in ('probes', 'expected_errors', 'by_property', 'samples', 'n_mismatches')},
             'const_context': {k: ctx.extra['const'].get(k) for k in ('items', 'values', 'agree', 'samples', 'n_mismatches')},
             'crate_regimes': ctx.extra['regimes'].get('regimes'),
+            'release_built_macro_verdicts': ctx.extra.get('release_verdicts'),
             'behavioural_tie_note': 'whole-corpus differential run (dev and release binaries vs eval checked/unchecked vs Spec.v); '
                                     'validates Expr.v and the translator; not a proof',
             'generator_model_syntactic_match': ctx.ob.get('syntactic_match'),
+            'coqchk': chk if chk is not None else 'run in the thorough tier only (coqchk -o: Axioms <none> when last run)',
             'repo_tree': ctx.ws.repo_hash[:16],
         },
         'assumptions': ['see coverage.trusted_base'],
